@@ -3,7 +3,7 @@ Every word is run as real MIR from a symbolic interpreter state whose top one or
 arbitrary cells (any variant, full-width payloads); the oracle is stated on z3 bit-vectors / floats."""
 import z3
 from e2.values import *
-from e2.lemma import word_map
+from e2.lemma import word_map, word_call
 from e2.prestate import *
 from e2.symex import veq, fp_fmod, fp_to_int_sat
 from e2.scen import *
@@ -317,14 +317,11 @@ def run(L, tier, only=None):
             L.undecided.append(("C09:" + w, "word not registered by arith::load any more"))
             continue
         target = wm[w][0]
-        fn = L.ex.find_closure(target) if target.startswith("{closure@") else L.fn(target)
-        if target.startswith("{closure@"):
-            # closure bodies take (&closure_env, &mut State)
-            body = (binary_lemma if w in BINARY else unary_lemma)(w, fn)
-            wrapped = closure_wrapper(fn, body, w)
-            L.lemma("C09 %s" % w, wrapped)
-        else:
-            L.lemma("C09 %s" % w, (binary_lemma if w in BINARY else unary_lemma)(w, fn))
+        fn = L.fn(target)
+        body = (binary_lemma if w in BINARY else unary_lemma)(w, fn)
+        if "{closure#" in fn.name:
+            body = closure_wrapper(fn, body, w)
+        L.lemma("C09 %s" % w, body)
 
 
 def closure_wrapper(fn, body, w):
